@@ -59,7 +59,7 @@ def required_counters(tier):
         "config.permuted": 300,
         "config.keyword": 300,
         "config.revkeyword": 300,
-        "model_crosscheck": 500, "second_call_same_function": 300, "decoy_union_first_member_binds_then_fails": 100,
+        "model_crosscheck": 500, "second_call_same_function": 300, "decoy_union_first_member_binds_then_fails": 100, "reentrant.probe_sets": 8,
     }
 
 
@@ -263,8 +263,112 @@ def run_signature(rec, rng, sig=None, shapes=None, retshape=None, rngkey=None, s
             rec.violation("metamorphic", case, f"configurations disagree among themselves: {sorted(s)}", mechanism="configs-disagree")
 
 
+_REENTRANT = {}
+
+
+def arm_reentrant(rec):
+    """a checked call is a checked call wherever it is made from: directly, from the flatten function of a custom
+    PyTree node while a PyTree check is flattening it, from the `shape` property of an array-like while an array
+    check reads it, from inside the leaf check of a structured PyTree - same verdicts, own bindings"""
+    import beartype
+    import jax
+    import typeguard
+
+    import jaxtyping
+    from jaxtyping import Float, PyTree, Shaped, jaxtyped
+
+    N = np.ndarray
+    if not _REENTRANT:
+        class ReNode:
+            def __init__(self, a, probe):
+                self.a, self.probe = a, probe
+
+        def fl(n):
+            n.probe()
+            return (n.a,), n.probe
+
+        jax.tree_util.register_pytree_node(ReNode, fl, lambda aux, ch: ReNode(ch[0], aux))
+
+        class ReShape:
+            dtype = "float32"
+
+            def __init__(self, shape, probe):
+                self._shape, self.probe = shape, probe
+
+            @property
+            def shape(self):
+                self.probe()
+                return self._shape
+
+        _REENTRANT.update(ReNode=ReNode, ReShape=ReShape)
+    ReNode, ReShape = _REENTRANT["ReNode"], _REENTRANT["ReShape"]
+    for cname, tc in (("typeguard", typeguard.typechecked), ("beartype", beartype.beartype)):
+        ns = {"Float": Float, "N": N, "jaxtyped": jaxtyped, "tc": tc}
+        real.exec_src('@jaxtyped(typechecker=tc)\ndef helper(x: Float[N, "n"], y: Float[N, "n"]) -> Float[N, "n"]:\n    return x\n', ns)
+        helper = ns["helper"]
+
+        def probe_calls():
+            out = []
+            for x, y in ((real.np_array((2,)), real.np_array((2,))), (real.np_array((2,)), real.np_array((3,))), (real.np_array((2,)), real.np_array((2,), "int32")), (real.np_array((2, 2)), real.np_array((2,)))):
+                try:
+                    helper(x, y)
+                    out.append("ok")
+                except Exception as e:  # noqa
+                    out.append(call_name(e))
+            with jaxtyped("context"):
+                out.append(("block", isinstance(real.np_array((4,)), Float[N, "n"]), isinstance(real.np_array((5,)), Float[N, "n"]), isinstance(real.np_array((4,), "int32"), Float[N, "..."])))
+                try:
+                    out.append(("?-outside", isinstance(real.np_array((4,)), Shaped[N, "?q"])))
+                except Exception as e:  # noqa
+                    out.append(("?-outside", type(e).__name__))
+            return out
+
+        def call_name(e):
+            return "TypeCheckError" if isinstance(e, jaxtyping.TypeCheckError) else type(e).__name__
+
+        direct = probe_calls()
+        seen = {}
+
+        def recorder(where):
+            def p():
+                seen.setdefault(where, probe_calls())
+
+            return p
+
+        def outer(value, ann):
+            try:
+                return isinstance(value, ann)
+            except Exception as e:  # noqa
+                return type(e).__name__
+
+        with jaxtyped("context"):
+            r1 = outer([ReNode(real.np_array((3,)), recorder("custom-flatten-function"))], PyTree[Float[N, "k"]])
+            r2 = outer(ReShape((3,), recorder("shape-property-during-array-check")), Float[typing_Any(), "k"])
+            r3 = outer({"a": ReShape((3,), recorder("shape-property-during-structured-leaf-check"))}, PyTree[Float[typing_Any(), "?k"], "T"])
+            r4 = outer([ReNode(real.np_array((3,)), recorder("custom-flatten-inside-structured"))], PyTree[Float[N, "?k"], "T2"])
+        rec.count("reentrant.outer_checks", 4)
+        if (r1, r2, r3, r4) != (True, True, True, True):
+            rec.violation("reentrant", {"checker": cname}, f"the enclosing checks themselves answered {(r1, r2, r3, r4)}", mechanism="reentrant-outer-check-disturbed")
+        for where in ("custom-flatten-function", "shape-property-during-array-check", "shape-property-during-structured-leaf-check", "custom-flatten-inside-structured"):
+            rec.count("reentrant.probe_sets")
+            rec.case(("reentrant", cname, where), True)
+            if where not in seen:
+                rec.inconclusive.append(f"re-entrant probe point {where} was never reached")
+                continue
+            if seen[where] != direct:
+                rec.violation("reentrant", {"checker": cname, "where": where}, f"checked calls made from a {where}: {seen[where]}, the same calls made directly: {direct}", mechanism="reentrant-" + where + "-differs")
+
+
+def typing_Any():
+    import typing
+
+    return typing.Any
+
+
 def run_shard(rec, seed, shard, tier):
     warnings.filterwarnings("ignore")
+    if shard["i"] % 8 == 0:
+        arm_reentrant(rec)
     for k in range(CASES[tier]):
         key = f"{seed}/C02/{shard['i']}/{k}"
         rng = random.Random(key)
